@@ -133,8 +133,45 @@ let op_decode (args : str list) : str list =
        | Some t -> ["some"; hex_of_bytes (enc8 t)])
   | [] -> ["bad-args"]
 
+(* literals: <kind> <token texts as hex ...> -> model result *)
+let show_opt_n = function None -> "none" | Some v -> dec_of_n v
+let op_lit (args : str list) : str list =
+  match args with
+  | "int" :: h :: _ -> [show_opt_n (integer_new (text_of_hex h))]
+  | "hex" :: h :: _ -> [show_opt_n (try_hex (text_of_hex h))]
+  | "oct" :: h :: _ -> [show_opt_n (try_octal (text_of_hex h))]
+  | "bin" :: h :: _ -> [show_opt_n (try_binary (text_of_hex h))]
+  | "fixed" :: h :: _ ->
+      (match fixed_parse (text_of_hex h) with None -> ["none"] | Some (w, f) -> [dec_of_n w; dec_of_n f])
+  | "dur" :: unit_ :: isfixed :: h :: _ ->
+      (* one duration component: the token text of its number, as FixedPoint or Digits token *)
+      let v = if isfixed = "1" then fixed_parse (text_of_hex h)
+              else (match integer_new (text_of_hex h) with None -> None | Some i -> fixed_of_integer i) in
+      let npu = (match unit_ with "d" -> npu_day | "h" -> npu_hour | "m" -> npu_minute | "s" -> npu_second | _ -> npu_milli) in
+      (match v with
+       | None -> ["none"]
+       | Some wf -> (match try_from_units wf npu with None -> ["none"] | Some (s, n) -> [dec_of_n s; dec_of_n n]))
+  | "date" :: y :: m :: d :: _ ->
+      (match integer_new (text_of_hex y), integer_new (text_of_hex m), integer_new (text_of_hex d) with
+       | Some y, Some m, Some d ->
+           (match date_literal y m d with None -> ["none"] | Some ((a, b), c) -> [dec_of_n a; dec_of_n b; dec_of_n c])
+       | _ -> ["none"])
+  | "tod" :: hh :: mm :: isfixed :: ss :: _ ->
+      let s = if isfixed = "1" then fixed_parse (text_of_hex ss)
+              else (match integer_new (text_of_hex ss) with None -> None | Some i -> fixed_of_integer i) in
+      (match integer_new (text_of_hex hh), integer_new (text_of_hex mm), s with
+       | Some h, Some m, Some s ->
+           (match daytime h m s with None -> ["none"]
+            | Some (((a, b), c), d) -> [dec_of_n a; dec_of_n b; dec_of_n c; dec_of_n d])
+       | _ -> ["none"])
+  | "addr" :: h :: _ ->
+      (match address (text_of_hex h) with
+       | None -> ["none"]
+       | Some ((l, s), comps) -> [dec_of_n l; dec_of_n s; S.concat "." (List.map dec_of_n comps)])
+  | _ -> ["bad-args"]
+
 let ops : (str * (str list -> str list)) list ref =
-  ref [ ("lex", op_lex); ("semtok", op_semtok); ("decode", op_decode) ]
+  ref [ ("lex", op_lex); ("semtok", op_semtok); ("decode", op_decode); ("lit", op_lit) ]
 
 
 let () =
